@@ -41,6 +41,64 @@ CHECKS = {
         technique="deterministic simulation: mapping-operation histories on symbolic_expressions interleaved with seeded lookups; answers judged against a fresh scan (exact and ordered at interval scope, must/may outside)",
         text="Edit task: every mutable-mapping operation, whole-mapping assignment, interval address changes and moves. Lookup task: symbolic_expressions_at[_offset] at every scope with points and stepped ranges.",
     ),
+    "C01": dict(
+        section="3/C01",
+        technique="deterministic simulation: save / load / crash-restart as generated operations inside seeded edit histories over a simulated disk; loaded IR vs model snapshot, deep_eq both ways, re-save equality",
+        text="save, load (twin IR) and crash-restart (every object dropped, latest file of every saved IR reloaded, model rolled back to the snapshot of that save) are placed by the scheduler at arbitrary points of edit histories over several generations, through the path and the stream API of a simulated disk (fault-free configuration). At every load of a file saved from a self-contained state the loaded IR is compared with the snapshot node by node, deep_eq is evaluated both ways against the live original, and the loaded IR is saved again and compared field by field.",
+    ),
+    "C02": dict(
+        section="3/C02",
+        technique="deterministic simulation with a foreign peer: writer direction = bytes on the simulated disk parsed with message classes generated from /repo/proto vs model; reader direction = files emitted by an independent in-process writer (permuted fields, explicit defaults, schema enum sweep) loaded by gtirb",
+        text="Both directions are judged separately. Writer: every save's bytes (header + message) are compared field by field with the model, enum numbers resolved through the schema descriptors. Reader: a peer that never uses gtirb's writer emits schema-valid, referentially closed messages in scheduled styles; the loaded attributes must equal the peer's spec, and every enum constant of the schema must be accepted. Half of the runs use the pure-Python protobuf backend.",
+    ),
+    "C07": dict(
+        section="3/C07",
+        technique="deterministic simulation (partly a pure function, see level_note): tables of random type trees ride 1-4 save / crash-restart generations; first read (lazy decode against the live IR) is placed by the scheduler relative to attach/detach/move operations",
+        text="Value equality after save/restart generations (doubles bit for bit), exact consumption (reference decode of the written bytes consumes all of them), and the schedule-dependent clause: UUID/Offset entries naming a node attached to the loading IR at decode time are that object, others plain UUIDs.",
+        note="decode(encode(v,T),T) == v is a pure function of (T, v); for that part the simulator is a seeded generator with replay and shrinking only. The lazy-decode schedule, the persistence path and the peer are the simulated parts. Trusted: refcodec (written from AuxData.hpp), the reference model.",
+    ),
+    "C08": dict(
+        section="3/C08",
+        technique="deterministic simulation, two-party: every table gtirb writes to the simulated disk is decoded / byte-compared by an independent reference codec; every table the peer writes is decoded by gtirb at a scheduled time",
+        text="(a) bytes gtirb writes decode under the reference codec (written from AuxData.hpp/AuxData.md, sharing no code with serialization.py) to the model value, byte-identical for types without set/mapping; (b) peer-written tables (reference encoder, permuted element order, repeated elements) decode under gtirb to the model value.",
+        note="value -> bytes is a pure function; the simulation contributes the two-party setting. The Java codec is NOT executed in this check (javac build of java/.../auxdatacodec was not wired in); the Java clause is covered by reading the Java codecs against the same format only. Trusted: refcodec.",
+    ),
+    "C09": dict(
+        section="3/C09",
+        technique="deterministic simulation + fault enumeration: identity oracle at every load/restart of own and peer files; every 4th run enumerates single dangling / ill-typed references of each kind on a valid file and requires DeserializationError",
+        text="Positive direction: after every load the containment walk gives uuid -> object and every referent, entry point, edge endpoint (three access paths) and expression symbol must be that very object; AuxData UUID/Offset entries are read at a scheduled time. Negative direction: structural single faults (dangling, ill-typed) for each of the reference kinds -> DeserializationError.",
+    ),
+    "C10": dict(
+        section="3/C10",
+        technique="deterministic simulation: seeded symbol histories (rename, payload switch, moves of symbols and referents); after every step symbols_named / references vs scans of the live structure",
+        text="After every step, for every module x every name in use (plus unused ones) and for every block and proxy, the index-backed lookups must equal scans of module.symbols.",
+    ),
+    "C11": dict(
+        section="3/C11",
+        technique="deterministic simulation: set-operation histories on ir.cfg run side by side with a Python set of (source,target,label); membership, length, iteration and adjacency views compared after every step",
+        text="All mutable-set operations incl. in-place operators over attached and free nodes, self-loops, parallel edges differing in label, None vs all-false label; pop() order decided by a reproducible insertion order.",
+    ),
+    "C14": dict(
+        section="3/C14",
+        technique="deterministic simulation: per-table state machine {untouched, read, mutated, assigned, retyped} x save x crash-restart generations, incl. peer-written unknown / partially unknown / non-canonical tables; oracle on the message taken from the simulated disk",
+        text="Which tables are read or edited before which save is the scheduler's choice. Untouched -> byte identical; unknown codec reached -> byte identical even after a read; otherwise reference-decoded written bytes == current value under the current type name.",
+    ),
+    "C17": dict(
+        section="3/C17",
+        level="fault_enumeration",
+        technique="deterministic simulation with single-fault enumeration on files of the simulated disk: every cut point, torn tails, lost/duplicated write chunks, header bytes, bit flips / byte sets, structural faults; reject-or-coherent oracle under a CPU-time watchdog",
+        text="Per seeded valid file (which must load): every truncation, every header-byte variation, every chunk loss/duplication and the whole structural fault list are enumerated; bit flips and byte sets are seeded 1/8 in the quick tier and exhaustive in the thorough tier. Accepted files go through the coherence checker (strict UUID table, both-ends containment, typed and attached references, bytes <= size, saves again).",
+    ),
+    "C18": dict(
+        section="3/C18",
+        technique="deterministic simulation, replicated state machines: two replicas fed the same log, diverged by single-field perturbations and re-converged; deep_eq both ways vs equality of canonical model trees, iteration order permuted per call",
+        text="deep_eq(A,B) == deep_eq(B,A) == (canonical trees equal) at IR level after every perturbation and catch-up, node-level reflexivity/symmetry/true-on-equal/false-on-own-difference; AuxData value changes must not change the answer.",
+    ),
+    "C19": dict(
+        section="3/C19",
+        technique="deterministic simulation: size / initialized_size / contents histories against a bytearray model with block views probed after every step, interleaved with save / crash-restart",
+        text="After every step initialized_size == len(contents) <= size, model equality, block address/contents/contains_* at probe points around both ends; construction with more bytes than size must be rejected; states survive save + restart.",
+    ),
     "C16": dict(
         section="3/C16",
         technique="deterministic simulation: collection-call histories run side by side with built-in list/set/dict (refinement), including failing calls and iterables that fail midway",
